@@ -45,7 +45,8 @@ type Cache struct {
 
 	autoRefresh bool
 	watch       *watch
-	// the last scan ran out of file descriptors, its result is incomplete
+	// the result of the last scan cannot be relied on (we ran out of file
+	// descriptors, or loaded Specs from a directory we are not watching)
 	scanFailed bool
 }
 
@@ -210,6 +211,24 @@ func (c *Cache) refresh() error {
 	// A scan which ran out of file descriptors is repeated by the next query in
 	// auto-refresh mode: there might never be an event to tell us to do so.
 	c.scanFailed = scanFailed || isOutOfDescriptors(scanErr)
+
+	// The same goes for anything we have loaded from a Spec directory which we
+	// are not watching, because it was removed and has reappeared since, or
+	// because it cannot be watched: it can change or vanish without an event.
+	if c.autoRefresh && c.watch.watcher != nil {
+		unwatched := func(path string) bool {
+			tracked, ok := c.watch.tracked[filepath.Dir(path)]
+			return ok && !tracked
+		}
+		for path := range specErrors {
+			c.scanFailed = c.scanFailed || unwatched(path)
+		}
+		for _, vendorSpecs := range specs {
+			for _, spec := range vendorSpecs {
+				c.scanFailed = c.scanFailed || unwatched(spec.GetPath())
+			}
+		}
+	}
 
 	c.specs = specs
 	verifPoint("refresh.swap", c.verifTag(), 1)
